@@ -346,9 +346,13 @@ def finish(mod, pid, args, seed, repo, shards, results, t_start, warm_s):
             "wall_s": round(wall, 2),
             "violations": int(n_viol),
         }
-        os.makedirs(os.path.join(VERIF, "evidence"), exist_ok=True)
+        # evidence/ holds runs against the repository itself; a run pointed at another tree with
+        # SPECKIT_VERIF_REPO (seeded changes, self-tests) writes to scratch_evidence/ (git-ignored)
+        foreign = os.environ.get("SPECKIT_VERIF_REPO") not in (None, "", "/repo")
+        edir = os.path.join(VERIF, "scratch_evidence" if foreign else "evidence")
+        os.makedirs(edir, exist_ok=True)
         from .recorder import jsonable
-        with open(os.path.join(VERIF, "evidence", pid + ".json"), "w") as f:
+        with open(os.path.join(edir, pid + ".json"), "w") as f:
             json.dump(jsonable(evidence), f, indent=1, sort_keys=False, allow_nan=False)
 
     print(f"{pid} tier={tier} seed={seed} verdict={verdict} evaluations={evaluations} "
